@@ -11,7 +11,7 @@ claimed = {
 }
 claimed.update({
  "C08": ("proof", "Per emitting site of the Bash converter the emitted line, as an SMT string with symbolic operands, is proved equal to a template in which the operand sits inside one pair of double quotes (assignment, concatenation, comparison, print, call argument, parameter binding, return register, substring, exists/read path), input() reads raw lines, the lexer's char() returns the byte itself. The sites where the property does NOT hold on the unchanged tree are stated from the property, fail with a counter-model, and are listed as known findings with witnesses (no escaping of double-quote specials, echo options, eval-based slice stores and write()).", "§5 C08"),
- "C11": ("other", "Proved (unbounded): char() returns exactly the byte, Tokenize index safety / progress facts, no blank or comment token is ever appended, the result ends with an EOF token on success, the string scanner gives up only at the end of the input, CRLF normalisation is exactly ReplaceAll(\\r\\n -> \\n). The functional longest-match specification and the row/column bookkeeping are NOT proved (they need a model of Go's regexp semantics) and no bounded stand-in is claimed.", "§5 C11"),
+ "C11": ("other", "Proved (unbounded): char() returns exactly the byte; Tokenize index safety / progress, no blank or comment token is ever appended, the result ends with an EOF token on success, the string scanner gives up only at the end of the input, CRLF normalisation is exactly ReplaceAll; table lemmas over the real operator list and keyword map (evaluated from the package initialiser): no operator spelling is preceded by one of its prefixes (longest match), every entry has the token type the grammar gives its spelling, the reserved words are exactly the keys of the keyword map; token-shape clauses at every newToken call: a block comment is the text up to its FIRST terminator, a line comment stops at the line break, true/false are whole words, an identifier or reserved word is the text at its position, starts with a letter or underscore and is maximal; identifiers are never reserved words and symbol tokens are what they spell; the parser keeps a number token's decimal value and a string token's bytes. The regular expressions enter through reference semantics selected by bounded equivalence testing against Go's regexp engine (an assumption, see level_note). Rows/columns and the string-literal unquoting (strconv.Unquote) are NOT proved.", "§5 C11"),
  "C12": ("other", "Single-run sufficient conditions only: CRLF normalisation is exact, blanks and comments never reach the token list, a declaration consumes values at most once and parses initial values only when something other than a newline or the end of the file follows (call-site assertion). The two-run theorem (same bytes for every re-layout) is argued in DESIGN.md, not machine-checked; newline tolerance of the import group / switch header is a known gap.", "§5 C12"),
  "C14": ("other", "Single-run sufficient conditions: Transpile creates exactly one fresh parser per run before parsing, the transpiler object keeps nothing but the converter, parser.New starts with an empty state, and every loop that ranges over a map (all packages except the CLI) passes a conservative map-order-independence analysis (its body only writes the map entry of the current key). The inference to byte-identical output across runs is argued, not machine-checked.", "§5 C14"),
  "C19": ("proof", "Contracts on tsh.go with os/filepath uninterpreted and logged: parseOptions returns only with non-empty in/out/converters (every other exit is a panic = non-zero status); main performs exactly one Transpile and one os.WriteFile per requested target, the write follows a successful Transpile of the same target, a failed write or transpile panics before anything else is written for that target, the bytes are the library's result and the file name is Base(in) without Ext(in) plus the target's extension. Two genuine defects were repaired (singleton converters, ignored write error).", "§5 C19"),
@@ -25,8 +25,8 @@ claimed.update({
 })
 notes = {
  "C08": "Trusted: Bash quoting rules (manual 3.1.2). Batch data paths are not claimed under C08. The six failing clauses are known findings (known_findings.txt), not proved.",
- "C11": "Uninterpreted regexp model with shape axioms (prefix, non-empty match decided by running the real regexp engine on the constant pattern). Column bookkeeping after block comments is not covered (a seeded change there is missed, see DESIGN.md).",
- "C12": "Relational property: only the listed single-run facts are machine-checked.",
+ "C11": "Each lexer pattern is modelled by one of five reference semantics chosen by bounded equivalence with the real regexp engine on a fixed corpus (about 20 000 short strings); patterns that match none stay uninterpreted. The number pattern and the escape pattern are uninterpreted (shape axioms only). Column bookkeeping after block comments is not covered (a seeded change there is missed, see DESIGN.md). Two genuine defects were repaired (greedy block comment, true/false as prefixes).",
+ "C12": "Relational property: only the listed single-run facts are machine-checked (including the comment token shapes shared with C11). Three layout defects were repaired without a clause (blank line after switch {, after import ( and between grouped imports).",
  "C14": "Added: the prefix of an imported file is a digest fed with exactly the bytes read from that file (one Write of the ReadFile result before Sum), so it does not depend on where the file lies. The map-order analysis is syntactic (go/ssa), not SMT; process-level nondeterminism other than map iteration (none exists in the code: no goroutines, no time, no random) is excluded by the outside-subset check.",
  "C19": "Trusted: os.Stat/WriteFile, filepath.Base/Ext/Join uninterpreted with the assumed fact that Ext(p) is a suffix of Base(p); a panic is the non-zero exit (Go runtime fact). 'never modifies its input' (output path differs from input path) is not proved.",
  "C13": "Termination (import cycles, parser recursion) is not proved: no decreases clauses yet. Mathematical integers (A1); stack depth and memory exhaustion not modelled. Undecided obligations are listed in the evidence.",
